@@ -72,6 +72,13 @@ def gen(seed):
                              t=round(r0["t"] + T + 1e-6, 7), beh=rng3.choice((["never"], ["never"], ["prompt"])),
                              cancel=None, in_window_of=r0["i"]))
             latency = 0.003
+    if any(r["kind"] == "join" for r in reqs) and rng3.random() < 0.35:
+        # a client timeout LONGER than the stated minimum for joins: the minimum is a lower bound, not the timeout
+        T = rng3.choice((40.0, 60.0))
+        for r in reqs:
+            r["t"] = round(min(r["t"], 5.0), 4)
+            if r["cancel"] is not None:
+                r["cancel"] = None
     return dict(seed=seed, T=T, brokers=brokers, blackhole=blackhole, reqs=reqs, versions_only=versions_only,
                 disconnect_on_timeout=dot, latency=latency)
 
